@@ -910,6 +910,80 @@ def run_range(case):
             "outcome": {"verdicts": verdicts}}
 
 
+# ================================================================== part readout (start time versus readout times)
+
+RO_TIMES = {"list": ([1.0, 2.0, 4.0], [1.0, 2.0, 4.0]), "expr": ("numpy.linspace(1, 3, 3)", [1.0, 2.0, 3.0]),
+            "one": ([2.0], [2.0])}
+
+
+def run_readout(case):
+    """The start time must lie before the first readout time: every boundary value, through constructor / YAML / setter,
+    in the readout section of every running mode."""
+    import pyxel
+    from pyxel.exposure import Readout
+
+    mode, path, tk = case["mode"], case["path"], case["times"]
+    written, times = RO_TIMES[tk]
+    s = _seed() % 3
+    first, last = times[0], times[-1]
+    vals = [("default", 0.0), ("before", first - 0.5 - 0.125 * s), ("first", first), ("between", (first + last) / 2.0 + 0.0625 * s),
+            ("last", last), ("after", last + 1.0), ("negative", -1.0 - s), ("nan", float("nan"))]
+    viol, verdicts, seen = [], [], set()
+
+    def bad(code, label, what):
+        key = {"part": "readout", "mode": mode, "path": path, "code": code, "value": label}
+        kk = json.dumps(key, sort_keys=True)
+        if kk not in seen:
+            seen.add(kk)
+            viol.append((key, f"{mode} readout times={written!r} start_time via {path}: {what}"))
+
+    for label, v, in vals:
+        valid = v == v and v < first
+        got, holder = None, None
+        try:
+            if path == "ctor":
+                r = Readout(times=written if tk != "expr" else eval(written, {"numpy": np}), start_time=v)
+                got = r.start_time
+            elif path == "yaml":
+                ro = {"times": written, "start_time": v}
+                d = {f"ccd_detector": _base_fields("ccd"), "pipeline": {}}
+                if mode == "exposure":
+                    d["exposure"] = {"readout": ro}
+                elif mode == "observation":
+                    d["observation"] = {"readout": ro, "parameters": [{"key": "detector.environment.temperature",
+                                                                        "values": [100, 200]}]}
+                cfg = pyxel.loads(yaml_text(d))
+                got = cfg.running_mode.readout.start_time
+            else:
+                r = Readout(times=written if tk != "expr" else eval(written, {"numpy": np}), start_time=0.0)
+                holder = r
+                r.start_time = v
+                got = r.start_time
+            accepted = True
+        except Exception as e:  # noqa: BLE001
+            accepted = False
+            err = f"{type(e).__name__}: {str(e)[:120]}"
+            if holder is not None and holder.start_time != 0.0:
+                bad("refused-but-stored", label, f"start_time={v!r} was refused ({err}) but the readout now has start_time="
+                    f"{holder.start_time!r}")
+        verdicts.append([label, accepted])
+        if accepted and not valid:
+            bad("invalid-accepted", label, f"start_time={v!r} ({label}) is not before the first readout time {first!r} but was "
+                f"accepted (reads back {got!r})")
+        elif not accepted and valid:
+            bad("valid-rejected", label, f"start_time={v!r} ({label}) lies before the first readout time but was refused: {err}")
+        elif accepted and valid and not (got == v):
+            bad("readback", label, f"start_time={v!r} reads back as {got!r}")
+    try:
+        pyxel.set_options(working_directory=None)
+    except Exception:  # noqa: BLE001
+        pass
+    nacc = sum(1 for _, a in verdicts if a)
+    return {"viol": viol, "sig": cfgx.sig(["readout", mode, path, tk, verdicts]), "nontrivial": 0 < nacc < len(verdicts),
+            "n": len(verdicts), "counts": {"range_cells": len(verdicts), "range_accepted": nacc},
+            "outcome": {"verdicts": verdicts}}
+
+
 # ================================================================== enumeration
 
 def enumerate_cases(tier, seed):
@@ -940,6 +1014,12 @@ def enumerate_cases(tier, seed):
         for kind in row[8]:
             for path in PATHS + (THOROUGH_PATHS if thorough else []):
                 cases.append({"part": "range", "section": row[0], "field": row[1], "det": kind, "path": path})
+    # readout
+    for tk in RO_TIMES:
+        for path in ("ctor", "setter"):
+            cases.append({"part": "readout", "mode": "any", "path": path, "times": tk})
+        for mode in ("exposure", "observation"):
+            cases.append({"part": "readout", "mode": mode, "path": "yaml", "times": tk})
     return cases
 
 
@@ -955,11 +1035,11 @@ def expected_size(tier, seed):
     n_range = sum(len(r[8]) for r in TABLE) * (len(PATHS) + (len(THOROUGH_PATHS) if tier == "thorough" else 0))
     if tier == "thorough":
         n_doc *= len(PIPE_PALETTES)
-    return n_doc + n_pres + n_range
+    return n_doc + n_pres + n_range + len(RO_TIMES) * 4
 
 
 def run_case(case):
-    return {"doc": run_doc, "presence": run_presence, "range": run_range}[case["part"]](case)
+    return {"doc": run_doc, "presence": run_presence, "range": run_range, "readout": run_readout}[case["part"]](case)
 
 
 def extra_coverage(tier, seed, agg):
